@@ -683,23 +683,23 @@ fn main() {
     rep.set_extra("calibration", json!({"add_window_pause_point_reached": reached, "add_window_blocks_publish": protected, "store_window_pause_point_reached": reached2, "store_window_blocks_add": protected2, "gating": GATING.lock().unwrap().clone()}));
     let scenarios = base_scenarios();
     for sc in &scenarios {
-        controlled(&rep, sc, a.pick(150, 20_000), None, block_wait);
+        controlled(&rep, sc, a.pick(150, 1_500), None, block_wait);
     }
     let t_base = rep.elapsed_s();
     rep.set_exhaustive(false);
     rep.set_extra("controlled", json!({"base_scenarios": scenarios.len(), "scenarios_fully_enumerated": rep.counter("controlled.scenarios_exhausted")}));
     // seeded random scenarios with seeded random schedules
     let mut rng = Rng::derive(a.seed, "C30-controlled", 0);
-    for _ in 0..a.pick(25, 600) {
+    for _ in 0..a.pick(25, 100) {
         let sc = random_scenario(&mut rng, false);
         let mut r2 = Rng::derive(a.seed, "C30-sched", rng.next_u64());
-        controlled(&rep, &sc, a.pick(6, 15), Some(&mut r2), block_wait);
+        controlled(&rep, &sc, a.pick(6, 10), Some(&mut r2), block_wait);
     }
     let t_controlled = rep.elapsed_s();
 
     // ---- stress
     let shards: u64 = a.pick(2, 6);
-    let rounds: u64 = a.pick(600, 120_000);
+    let rounds: u64 = a.pick(600, 5_000);
     for (sleep_us, label) in [(0u64, "plain"), (25, "pause-point-sleeps")] {
         sched::set_stress(sleep_us, a.seed ^ 0x30);
         let rounds = if sleep_us > 0 { rounds / 2 } else { rounds };
